@@ -16,6 +16,14 @@ import (
 func (c *Ctx) unop(in *ssa.UnOp, x Value) Value {
 	switch in.Op {
 	case token.MUL: // load
+		if sp, ok := x.(SymPtr); ok {
+			arr := sp.Base.load().(*ArrayVal)
+			r := arr.E[sp.Off+sp.N-1].(*Term)
+			for k := sp.N - 2; k >= 0; k-- {
+				r = Ite(c.idxEq(sp.Idx, k), arr.E[sp.Off+k].(*Term), r)
+			}
+			return r
+		}
 		p := x.(Ptr)
 		if p.IsNil() {
 			c.goPanic("nil", "nil pointer dereference (load)")
